@@ -1083,7 +1083,14 @@ void destruct_object (object_t * ob) {
         }
 
       if (otmp == ob->contains) /* not moved elsewhere ... see move_or_destruct() apply */
-        destruct_object (otmp);
+        {
+          destruct_object (otmp);
+          /* that destruct ran hooks of its own (move_or_destruct() further down, init() of
+           * whoever was moved): they may have destructed us meanwhile, and going on would
+           * put us on the list of destructed objects a second time */
+          if (ob->flags & O_DESTRUCTED)
+            return;
+        }
     }
 
 #ifdef OLD_ED
